@@ -65,7 +65,7 @@ int fate_classify(int st) {
     int s = WTERMSIG(st);
     if (s == SIGABRT) return (sim_shared && sim_shared->abort_entered) ? FATE_DIE : FATE_ABORT_FOREIGN;
     if (s == SIGSEGV || s == SIGBUS) return FATE_SEGV;
-    if (s == SIGALRM || s == SIGKILL) return FATE_TIMEOUT;
+    if (s == SIGALRM || s == SIGVTALRM || s == SIGKILL) return FATE_TIMEOUT;
     return FATE_SIGNAL_OTHER;
   }
   return FATE_SIGNAL_OTHER;
